@@ -106,6 +106,8 @@ inductive Act where
   | adv                  -- execute the next step of the innermost activation (in the body: return)
   | raise                -- the body of the innermost activation raises (the `with` statement still
                          -- releases both items; the caller's body may handle it or raise in turn)
+  | fail                 -- the original `Process.start()` raises (unpicklable target, fork() failing, …):
+                         -- no child comes up; whatever the wrapper did to the lock before stays
   | wr                   -- write a query to the terminal (body; no reply outstanding)
   | rd                   -- read the next reply part from the input queue (body; blocks when empty)
   | respond              -- the terminal delivers the oldest undelivered reply part (thread id ignored)
@@ -210,6 +212,10 @@ def step (s : State) (t : Nat) (a : Act) : Option State :=
               { f with exc := true } rest
           else none
       | .start pc l pass c, .adv => stepStart s t (s.proc t) pc l pass c
+      | .start pc _ _ _, .fail =>
+          -- `_process_start_wrapper.__wrapped__(self, …)` raises: the exception propagates out of the
+          -- wrapper, the global keeps naming the (possibly just migrated) lock
+          if pc = .fk then some (setThr s t .idle) else none
       | _, _ => none
     else none
 
